@@ -67,8 +67,8 @@ SEMANTIC_RULES = {
     "C10": {"ENTRY", "PRIMv", "CLONEv", "BACKEND", "FTYPE", "OWN", "IMM", "UPD"},
     "C11": {"R1", "R5", "R6", "R7", "R9"},
     "C13": {"UNIQ", "LCA", "SIZED", "CONST", "XMODEL", "CONSTREJ", "DET"},
-    "C14": {"R1v", "R2", "R5"},
-    "C16": {"CLONEv", "R6", "R7", "R8"},
+    "C14": {"R1t", "R1v", "R2", "R5"},
+    "C16": {"CLONEv", "R4v", "R6", "R7", "R8"},
     "C17": {"R1", "R2", "R5", "R6"},
     "C18": {"R1", "R2", "R3", "R4", "R5"},
     "C19": {"R1", "R2", "R3", "R3b", "R4", "R8", "R9", "R10", "R11", "A12"},
